@@ -556,6 +556,37 @@ theorem winv_setRng {R} {w : World} (h : WInv R w) (m : Nat) (g : Rng) : WInv R 
 
 /-! ### activations preserve the invariant -/
 
+/-- a callback that adds an agent to a program-made set: the registries are not concerned, the set stays duplicate-free -/
+theorem winv_setAdd {R} {w : World} (h : WInv R w) (k : Nat) (b : Aid) : WInv R (setAdd w k b) := by
+  obtain ⟨f1, f2, _, _, f5⟩ := setAdd_frame w k b
+  refine ⟨by rw [f1, f2, f5]; exact h.regs, by rw [f1, f5]; exact h.rl, by rw [f1, f2]; exact h.models, ?_⟩
+  unfold setAdd
+  cases hs : w.sets[k]? with
+  | none => exact h.sets
+  | some p =>
+    obtain ⟨m, l⟩ := p
+    simp only
+    split
+    · intro q hq
+      rcases List.mem_or_eq_of_mem_set hq with hq | rfl
+      · exact h.sets q hq
+      · exact nodup_addKey (h.sets (m, l) (List.mem_of_getElem? hs))
+    · exact h.sets
+
+theorem winv_setDiscard {R} {w : World} (h : WInv R w) (k : Nat) (b : Aid) : WInv R (setDiscard w k b) := by
+  obtain ⟨f1, f2, _, _, f5⟩ := setDiscard_frame w k b
+  refine ⟨by rw [f1, f2, f5]; exact h.regs, by rw [f1, f5]; exact h.rl, by rw [f1, f2]; exact h.models, ?_⟩
+  unfold setDiscard
+  cases hs : w.sets[k]? with
+  | none => exact h.sets
+  | some p =>
+    obtain ⟨m, l⟩ := p
+    simp only
+    intro q hq
+    rcases List.mem_or_eq_of_mem_set hq with hq | rfl
+    · exact h.sets q hq
+    · exact (h.sets (m, l) (List.mem_of_getElem? hs)).sublist List.erase_sublist
+
 theorem winv_runAction {R} (hR : OrdRel R) {w : World} (h : WInv R w) (self : Aid) (act : Action) :
     WInv R (runAction self w act) := by
   cases act with
@@ -563,6 +594,8 @@ theorem winv_runAction {R} (hR : OrdRel R) {w : World} (h : WInv R w) (self : Ai
   | rm b => exact winv_removeAgent hR h b
   | create m ty n hold => exact winv_createN hR h m ty hold _
   | unhold b => exact winv_unhold h b
+  | addTo k b => exact winv_setAdd h k b
+  | discardFrom k b => exact winv_setDiscard h k b
 
 theorem winv_invoke {R} (hR : OrdRel R) {w : World} (h : WInv R w) (script : Aid → List Action) (arg : Nat) (a : Aid) :
     WInv R (invoke script arg w a) := by
@@ -807,6 +840,34 @@ theorem winv_step {R} (hR : OrdRel R) {w : World} (h : WInv R w) (op : Op) (hop 
   | groupMap script arg key t =>
     simp only [step, groupMap_fst]
     exact winv_groupDo hR h script arg _ t
+  | doSetX script raises arg t =>
+    obtain ⟨pre, _, hp⟩ := walkX_fst_walk script raises arg w (members w t)
+    simp only [step, doSetX, hp]
+    exact winv_walk hR h script arg _
+  | shuffleDoX script raises arg t =>
+    simp only [step, shuffleDoX]
+    obtain ⟨pre, _, hp⟩ := walkX_fst_walk script raises arg
+      (setRng w (t.model w) (Rng.shuffle (members w t) (rngOf w t)).2) (Rng.shuffle (members w t) (rngOf w t)).1
+    rw [hp]
+    exact winv_walk hR (winv_setRng h _ _) script arg _
+  | mapSetX script raises arg t =>
+    simp only [step, mapSetX, (walkMapX_spec script raises arg _ w _).1]
+    obtain ⟨pre, _, hp⟩ := walkX_fst_walk script raises arg w (members w t)
+    rw [hp]
+    exact winv_walk hR h script arg _
+  | groupDoX script raises arg key t =>
+    simp only [step, groupDoX_eq]
+    obtain ⟨pre, _, hp⟩ := walkX_fst_walk script raises arg w ((groupBy (key.eval w) (members w t)).map (·.2)).flatten
+    rw [hp]
+    exact winv_walk hR h script arg _
+  | groupMapX script raises arg key t =>
+    simp only [step, groupMapX, (groupsMapX_spec script raises arg _ w _).1]
+    have := groupDoX_eq script raises arg (key.eval w) w t
+    unfold groupDoX at this
+    rw [this]
+    obtain ⟨pre, _, hp⟩ := walkX_fst_walk script raises arg w ((groupBy (key.eval w) (members w t)).map (·.2)).flatten
+    rw [hp]
+    exact winv_walk hR h script arg _
 
 theorem winv_step_perm {w : World} (h : WInv List.Perm w) (op : Op) : WInv List.Perm (step w op) := by
   by_cases hop : op.reordersRegistry = false
@@ -949,6 +1010,20 @@ theorem step_info_ext (w : World) (op : Op) : ∃ e, (step w op).info = w.info +
     simp only [step, mapSet, (walkMap_spec script arg _ w _).1]; exact hwalk script arg w _
   | groupDo script arg key t => exact hgroup script arg w _
   | groupMap script arg key t => simp only [step, groupMap_fst]; exact hgroup script arg w _
+  | doSetX script raises arg t => exact (le_walkX script raises arg w _).ext
+  | shuffleDoX script raises arg t =>
+    obtain ⟨e, he⟩ := (le_walkX script raises arg (setRng w (t.model w) (Rng.shuffle (members w t) (rngOf w t)).2)
+      (Rng.shuffle (members w t) (rngOf w t)).1).ext
+    exact ⟨e, by simp only [step, shuffleDoX]; rw [he, setRng_info]⟩
+  | mapSetX script raises arg t =>
+    simp only [step, mapSetX, (walkMapX_spec script raises arg _ w _).1]; exact (le_walkX script raises arg w _).ext
+  | groupDoX script raises arg key t =>
+    simp only [step, groupDoX_eq]; exact (le_walkX script raises arg w _).ext
+  | groupMapX script raises arg key t =>
+    simp only [step, groupMapX, (groupsMapX_spec script raises arg _ w _).1]
+    have := groupDoX_eq script raises arg (key.eval w) w t
+    unfold groupDoX at this
+    rw [this]; exact (le_walkX script raises arg w _).ext
 
 theorem run_info_ext (w : World) (ops : List Op) : ∃ e, (run w ops).info = w.info ++ e := by
   unfold run
@@ -1004,5 +1079,42 @@ theorem splitArgs_length (n : Nat) (args : List Arg) : (splitArgs n args).length
 theorem splitArgs_getElem? (n : Nat) (args : List Arg) (i : Nat) (hi : i < n) :
     (splitArgs n args)[i]? = some (args.map (Arg.at n i)) := by
   simp [splitArgs, hi]
+
+/-! ### `register_agent` called again on a registered agent -/
+
+theorem byTypeAdd_noop (bt : List (Ty × List Aid)) (ty : Ty) (a : Aid) (s : List Aid) (h : bt.lookup ty = some s)
+    (ha : a ∈ s) : byTypeAdd bt ty a = bt := by
+  induction bt with
+  | nil => simp [List.lookup] at h
+  | cons p bt ih =>
+    obtain ⟨t, s0⟩ := p
+    unfold byTypeAdd
+    by_cases hts : t = ty
+    · subst hts
+      simp only [List.lookup, beq_self_eq_true] at h
+      simp only [if_true]
+      have : s0 = s := by simpa using h
+      subst this
+      rw [addKey_of_mem ha]
+    · have hne : (ty == t) = false := by simp; exact fun e => hts e.symm
+      simp only [hts, if_false]
+      rw [ih (by simpa [List.lookup, hne] using h)]
+
+theorem registerAgain_noop {R} (hR : OrdRel R) {w : World} (h : WInv R w) (a : Aid) (hreg : registered w a = true) :
+    registerAgain w a = w := by
+  rw [registered_iff] at hreg
+  obtain ⟨i, r, hi, hr, ha⟩ := hreg
+  have hinv := h.regs i.model r hr
+  have hall : a ∈ r.all := (hR.perm hinv.all).mem_iff.mpr ha
+  have hty : tyOfI w.info a = i.ty := by simp [tyOfI, hi]
+  obtain ⟨s, hs, hmem⟩ := lookup_of_mem_keys (hinv.bt.cover a ha)
+  have has : a ∈ s := by
+    have hg := hinv.bt.groups (tyOfI w.info a, s) hmem
+    apply (hR.perm hg).mem_iff.mpr
+    simp [ha]
+  rw [hty] at hs
+  have hreg' : r.register a i.ty = r := by
+    simp only [Reg.register, addKey_of_mem ha, addKey_of_mem hall, byTypeAdd_noop _ _ _ _ hs has]
+  simp only [registerAgain, hi, hr, hreg', set_getElem?_self hr]
 
 end Mesa.Agents
